@@ -140,8 +140,9 @@ namespace foonathan
                 auto fence  = detail::debug_fence_size;
                 auto offset = detail::align_offset(stack_.top() + fence, alignment);
 
-                if (!stack_.top()
-                    || fence + offset + size + fence > std::size_t(block_end() - stack_.top()))
+                // written so that a huge size cannot wrap the sum around
+                auto remaining = stack_.top() ? std::size_t(block_end() - stack_.top()) : 0u;
+                if (!stack_.top() || size > remaining || fence + offset + fence > remaining - size)
                 {
                     // need to grow
                     auto block = arena_.allocate_block();
@@ -150,7 +151,9 @@ namespace foonathan
                     // new alignment required for over-aligned types
                     offset = detail::align_offset(stack_.top() + fence, alignment);
 
-                    auto needed = fence + offset + size + fence;
+                    auto overhead = fence + offset + fence;
+                    auto needed =
+                        size > std::size_t(-1) - overhead ? std::size_t(-1) : overhead + size;
                     detail::check_allocation_size<bad_allocation_size>(needed, block.size, info());
                 }
 
